@@ -25,6 +25,7 @@ DISPATCH = {
     "C09": ("harness.supply", "run"),
     "C10": ("harness.units", "run"),
     "C11": ("harness.foodalg", "run"),
+    "C17": ("harness.pipeline", "run"),
     "C18": ("harness.handoff", "run"),
 }
 
